@@ -175,6 +175,17 @@ CLAIMED["C09"] = dict(
     note=NOTE_COMMON + "; geometry is concrete (text header); open/np.fromfile/tobytes in io/ovf.py replaced by an in-memory typed-chunk "
          "file; text formatting exactness of CPython/pandas only natively to 1e-9",
 )
+CLAIMED["C16"] = dict(
+    text="Field.to_vtk and the VTK writer/reader pair run on symbolic geometry, symbolic values and symbolic validity bits "
+         "against a recorder grid: dimensions n+1, coordinates = vertices, and under VTK's cell-id contract the field tuple, "
+         "every component scalar, the norm (exact square-root encoding) and the validity flag stored at cell id "
+         "i+nx*(j+ny*k) are those of mesh cell (i,j,k); bin/xml round trips return the same region, counts, values, validity, "
+         "labels (incl. labels that are substrings of 'norm') and subregions; native replays use the real VTK where the "
+         "cell-id contract is checked through GetCell(id).GetBounds(), the text form to 1e-9, hand-written legacy point-data "
+         "files (negative values, anisotropic cells) and the repository's legacy samples.",
+    ref="DESIGN.md section 2 / C16",
+    note=NOTE_COMMON + "; VTK classes replaced by a recorder grid (writer -> matching reader is the identity); the real VTK only in native replays",
+)
 PENDING_REASON = "check not built yet in this round (planned: DESIGN.md section 2); not claimed until it runs green"
 NA = {}
 
